@@ -47,7 +47,7 @@ class _CodeStub(tuple):
     matrix, version, error, mask, segments = '<matrix>', 5, 0, 6, ()
 
 
-def _run(fx, it, content, whole_mode, whole_enc, fit_single=None, chunk_version=None, **kw):
+def _run(fx, it, content, whole_mode, whole_enc, fit_single=None, chunk_version=None, boost=None, **kw):
     """Interpret encode_sequence with recorders.  chunk_version: f(chunk) -> version for find_version on a chunk."""
     md = modes(fx)
     rec = {'make_segment': [], 'find_version': [], '_encode': [], 'parity': [], 'prepare': [], 'fits': [], 'keep': []}
@@ -80,31 +80,50 @@ def _run(fx, it, content, whole_mode, whole_enc, fit_single=None, chunk_version=
         rec['fits'].append((id(segments), r))
         return r
 
-    def _encode(*a_, **k_):
-        ref = ['segments', 'error', 'version', 'mask', 'eci', 'boost_error', 'sa_info']
-        vals = dict(zip(ref, a_))
-        vals.update(k_)
-        if set(vals) - set(ref) or 'segments' not in vals:
-            raise Unknown(f'encode_sequence calls _encode with {sorted(set(vals) - set(ref)) or "no segments"}: the internal interface changed, the call cannot be read')
-        segments, error, version, mask = vals['segments'], vals.get('error'), vals.get('version'), vals.get('mask')
-        eci, boost_error, sa_info = vals.get('eci'), vals.get('boost_error'), vals.get('sa_info')
-        first = segments.segments[0]
-        rec['keep'].append(segments)
-        rec['_encode'].append(dict(segid=id(segments), what=seg_of.get(id(segments), seg_of.get(id(first))), error=error, version=version, mask=mask,
-                                   eci=eci, boost_error=boost_error, sa_info=sa_info, mode=first.mode, encoding=first.encoding))
-        return _CodeStub(('SYM', len(rec['_encode'])))
-
     def parity(content_, encoding=None):
         rec['parity'].append((content_, encoding))
         return 0x5A
-    genv = encoder_env(fx.forest, it, prepare_data=prepare_data, make_segment=make_segment, find_version=find_version,
-                       _encode=_encode, calc_structured_append_parity=parity, Segments=SegsStub,
-                       _StructuredAppendInfo=lambda number, total, parity: ('SA', number, total, parity))
+    # the symbols are observed at the leaf stages of symbol creation (whatever control code - _encode or its parts - sits above)
+    from .models import SymbolTrace
+    trace = SymbolTrace(fx, boost=boost, code_result=lambda n_, sym_: _CodeStub(('SYM', n_)))
+    genv = trace.bind(encoder_env(fx.forest, it, prepare_data=prepare_data, make_segment=make_segment, find_version=find_version,
+                                  calc_structured_append_parity=parity, Segments=SegsStub, **trace.env), it)
     f = FuncVal(fx.fn('encoder', 'encode_sequence'), genv, it)
+
+    def collect():
+        for sym in trace.symbols:
+            if sym['problems']:
+                raise Unknown('symbol creation could not be traced from stage to stage: ' + '; '.join(sym['problems']))
+            segments = sym['code']['segments']
+            if not isinstance(segments, SegsStub) or not segments.segments:
+                raise Unknown('Code(...) is not given the Segments object of the symbol')
+            first = segments.segments[0]
+            if sym['written'] != list(segments.segments):
+                raise Unknown('the segments written into the bit buffer are not the segments stored in Code')
+            hdr = trace.header(sym)
+            if hdr is not None and not (isinstance(hdr, tuple) and hdr[0] == 0b0011):
+                sa_info = ('not a Structured Append header', hdr)
+            else:
+                sa_info = None if hdr is None else ('SA',) + hdr[1:]
+            boost = sym['boost']
+            if boost is not None and (boost['segments'] is not segments or boost['version'] != sym['final']['version']):
+                raise Unknown('boost_error_level is asked about another symbol than the one being built')
+            if boost is not None and bool(boost['is_sa']) != (hdr is not None):
+                sa_info = ('booster told is_sa=%r' % (boost['is_sa'],), sa_info)
+            eci = sym['eci'][0] if len(sym['eci']) == 1 else tuple(sym['eci'])
+            if boost is not None and bool(boost['eci']) != eci:
+                eci = ('booster told eci=%r' % (boost['eci'],), eci)
+            rec['keep'].append(segments)
+            rec['_encode'].append(dict(segid=id(segments), what=seg_of.get(id(segments), seg_of.get(id(first))),
+                                       error=boost['error'] if boost is not None else sym['final']['error'], version=sym['final']['version'],
+                                       mask=sym['mask_requested'], eci=eci, boost_error=boost is not None, sa_info=sa_info, mode=first.mode,
+                                       encoding=first.encoding, symbol=sym))
     try:
         res = f(content, **kw)
+        collect()
         return res, rec
     except PyRaise as e:
+        collect()
         return f'raises {e.name}', rec
 
 
@@ -285,6 +304,39 @@ def r3(fx):
     yield ob('bytes content is used as it is (no str())', seen[-1] == (b'raw', None), pf, got=seen[-1], want=(b'raw', None))
 
 
+def sequence_symbols_consistent(fx):
+    """Every symbol of a sequence (and the single symbol a short message yields): the level and version the final message is
+    built for are the ones announced in the format / version information and stored in Code - also when the booster raised
+    the level; the mask announced is the mask applied; the matrix has the size of the version."""
+    fn = fx.fn('encoder', 'encode_sequence')
+    lv = levels(fx)
+    it = Interp(max_steps=20_000_000)
+    for title, kw, fit in (('symbol_count=3', dict(symbol_count=3), None), ('version=5 (several symbols)', dict(version=5), None),
+                           ('version=5 (message fits one symbol of version 3)', dict(version=5), 3)):
+        for req, raised in (('l', 'H'), ('m', 'Q'), ('h', 'H')):
+            res, rec = _run(fx, it, CONTENT, 'byte', 'iso-8859-1', fit_single=fit, chunk_version=lambda chunk: 5, boost=lambda e_, v_, r_=raised: lv[r_],
+                            error=req, boost_error=True, **kw)
+            probs = []
+            if not isinstance(res, list) or not rec['_encode']:
+                probs.append(str(res)[:60])
+            for i, e in enumerate(rec['_encode']):
+                sym = e['symbol']
+                want_level, want_version = lv[raised], e['version']
+                fmt = sym.get('format') or {}
+                seen = dict(final=(sym['final']['version'], sym['final']['error']), format=(fmt.get('version'), fmt.get('error')),
+                            code=(sym['code']['version'], sym['code']['error']), version_info=sym.get('version_info'), placed=sym.get('placed_version'))
+                if not (seen['final'] == seen['format'] == seen['code'] == (want_version, want_level) and seen['version_info'] == want_version
+                        and seen['placed'] == want_version):
+                    probs.append(f'symbol {i}: {seen}')
+                if sym.get('format_calls') != 1 or fmt.get('mask') != 5 or sym['code']['mask'] != 5:
+                    probs.append(f'symbol {i}: mask chosen 5, announced {fmt.get("mask")}, stored {sym["code"]["mask"]}')
+                n_ = iso.size_of(want_version) if isinstance(want_version, int) and 1 <= want_version <= 40 else None
+                if sym.get('matrix_size') != (n_, n_) or tuple(sym.get('mask_dims') or ()) != (n_, n_):
+                    probs.append(f'symbol {i}: matrix {sym.get("matrix_size")}, masked as {sym.get("mask_dims")} for version {want_version}')
+            yield ob(f'{title}, level {req.upper()} raised to {raised} by the booster: one level and one version from the final message to the format information and Code',
+                     not probs, fn, got=probs[:2] or 'consistent', want='consistent')
+
+
 F7_INSTANCE = '_encode(<chunk segments>, version=<caller-supplied version>) in the comprehension over the chunks'
 
 
@@ -343,3 +395,8 @@ def r6(fx):
 @rule('C08', 'R5', 8, 'make_sequence forwards all its parameters to encode_sequence; a sequence is a tuple of QRCode')
 def r5(fx):
     yield from wrappers.forwarding(fx, {'content', 'error', 'version', 'mode', 'mask', 'encoding', 'boost_error', 'symbol_count'})
+
+
+@rule('C08', 'R7', 9, 'every symbol of a sequence is built for one level and one version from the final message to the format / version information and Code')
+def r7(fx):
+    yield from sequence_symbols_consistent(fx)
